@@ -30,6 +30,21 @@ func NewRecordBatchFromBytes(data []byte) (RecordBatch, error) {
 	baseOffset := int64(binary.BigEndian.Uint64(data[0:8]))
 	lastOffsetDelta := int32(binary.BigEndian.Uint32(data[23:27]))
 	messageCount := int32(binary.BigEndian.Uint32(data[57:61]))
+	// Offsets are assigned from these header fields, so reject values that
+	// would move the log's next offset backwards or hide further batches.
+	if lastOffsetDelta < 0 {
+		return RecordBatch{}, fmt.Errorf("record batch has negative last offset delta %d", lastOffsetDelta)
+	}
+	if messageCount < 0 {
+		return RecordBatch{}, fmt.Errorf("record batch has negative record count %d", messageCount)
+	}
+	// batchLength counts the bytes after the length field. Only the first
+	// batch header is patched with the assigned base offset, so a payload that
+	// carries more (or fewer) bytes than the batch declares is refused. A zero
+	// length field (not produced by real clients) is left unchecked.
+	if batchLength := int64(int32(binary.BigEndian.Uint32(data[8:12]))); batchLength != 0 && batchLength+12 != int64(len(data)) {
+		return RecordBatch{}, fmt.Errorf("record batch length field %d does not match payload of %d bytes", batchLength, len(data))
+	}
 	return RecordBatch{
 		BaseOffset:      baseOffset,
 		LastOffsetDelta: lastOffsetDelta,
